@@ -58,6 +58,11 @@ func runC09(cases string, res *Result) {
 					Detail: "engine settings that have nothing to do with control flow change what the template renders"})
 				return
 			}
+			if msg := evalByOtherRoutes(c, parseContext(c.str("ctx")), nil, out, class); msg != "" {
+				res.add(Finding{Kind: "oracle", Where: stream + "/routes", Case: c, Expected: observed, Observed: msg,
+					Detail: "the way the template reached the engine, or the entry point that renders it, changes what it renders"})
+				return
+			}
 			if msg := evalAfterHistory(c, parseContext(c.str("ctx")), nil, out, class); msg != "" {
 				res.add(Finding{Kind: "oracle", Where: stream + "/history", Case: c, Expected: observed, Observed: msg,
 					Detail: "what the engine did before changes what the template renders"})
